@@ -139,7 +139,8 @@ def run(rep, tier):
     rep.assumptions = ["observation through the public getters only (has_*, get_type_sig, get_term_sig, get_theorem, get_attributes, is_overload_const, "
                        "get_data(..) keys, theory.has_macro); get_theorem(name, svar=True) is asked on a copy.copy of the object",
                        "library: a scratch directory with two generated theories and a copy of logic_base (path helpers of logic/basic.py redirected)",
-                       "re-adding a TYPE with the SAME arity is accepted (the loader does it for every datatype); same-arity re-adds are not judged",
+                       "a theorem item / add_theorem on an existing name REPLACES the theorem (as the kernel always allowed); a type declared again (same or another "
+                       "arity) is not judged: a divergence is recorded",
                        "the theory on leaving a fresh_context block is judged only when the body did not itself install a theory "
                        "(load_theory / set_context with a name); otherwise a divergence is recorded"]
     timing = rep.notes.setdefault("timing_s", {})
@@ -159,10 +160,9 @@ def run(rep, tier):
                 return
         timing["tlc_S"] = round(max(r_thy.wall, r_ctx.wall), 1)
         logs_thy, logs_ctx = [r_thy.out], [r_ctx.out]
-        more = []
+        more = [("X01_Theory", "X01_Theory_inv.cfg", None, "all operations, 3 objects, invariants only")]
         if not quick:
-            more += [("X01_Theory", "X01_Theory_inv.cfg", None, "all operations, 3 objects, invariants only"),
-                     ("X01_Context", "X01_Context_inv.cfg", None, "MaxOps=5, invariants only"),
+            more += [("X01_Context", "X01_Context_inv.cfg", None, "MaxOps=5, invariants only"),
                      ("X01_Theory", "X01_Theory_sim.cfg", "num=400", "simulated behaviours of 8 operations, all operations, 3 objects"),
                      ("X01_Context", "X01_Context_sim.cfg", "num=400", "simulated behaviours of 8 operations, depth 3, three theories")]
 
@@ -184,8 +184,8 @@ def run(rep, tier):
         (wd / "thy_vectors.log").write_text("\n".join(logs_thy))
         (wd / "ctx_vectors.log").write_text("\n".join(logs_ctx))
         # ---------------- drivers: spec -> code (vectors) and code -> spec (seeded random histories)
-        nh, ln = (40, 20) if quick else (600, 30)
-        nhc, lnc = (30, 20) if quick else (400, 30)
+        nh, ln = (60, 20) if quick else (600, 30)
+        nhc, lnc = (40, 20) if quick else (400, 30)
         jobs = [("thy-vectors", [wd / "thy_vectors.log", wd / "thy_v.ndjson"]),
                 ("ctx-vectors", [wd / "ctx_vectors.log", lib, wd / "canon.json", wd / "ctx_v.ndjson"]),
                 ("thy-random", [wd / "thy_r.ndjson", seed(), nh, ln]),
@@ -193,19 +193,15 @@ def run(rep, tier):
         futs = [pool.submit(run_driver, "x01", [m] + a, timeout=7200) for m, a in jobs]
         # meanwhile: the mechanism as found in the kernel and the mutants, at the level of the specification
         t1_jobs = []
-        # the kernel as found (a theorem / type item on an existing name replaces it, add_theorem keeps the cached schematic form):
-        # one run that goes on after the first violated invariant; both invariants must be reported
-        asfound = [("as_found:existing names are replaced, the cached schematic form is kept", "X01_Theory_asfound.cfg", {}, ["ReaddRefused", "CacheCoherent"],
-                    ["ReaddRefused", "CacheCoherent"])]
-        mech = []
+        # the kernel as it was found (add_theorem on an existing name kept the cached schematic form; repaired in the repository)
+        asfound = [("as_found:add_theorem keeps the cached schematic form of a replaced theorem", "X01_Theory_asfound.cfg", {}, ["CacheCoherent"], ["CacheCoherent"])]
+        mech = [("attributes_appended_in_place", "X01_Theory_cache.cfg", {"CopyMode": '"deep1"', "AttrMode": '"inplace"', "Fams": '{"attr"}', "MaxOps": "3"}, None, ["CopyIsolation"]),
+                ("load_theory_hands_out_the_cached_object", "X01_Context_inv.cfg", {"LoadMode": '"shared"', "MaxOps": "3"}, None, ["CachedTheoryUntouched"])]
         if not quick:
             mech += [("copy_shares_the_cache", "X01_Theory_cache.cfg", {"CopyMode": '"sharecache"'}, None, ["CopyIsolation"]),
-                     ("attributes_appended_in_place", "X01_Theory_cache.cfg", {"CopyMode": '"deep1"', "AttrMode": '"inplace"', "Fams": '{"attr"}', "MaxOps": "3"}, None, ["CopyIsolation"]),
                      ("copy_shares_every_dictionary", "X01_Theory_cache.cfg", {"CopyMode": '"shared"'}, None, ["CopyIsolation"]),
-                     ("type_of_other_arity_shadows", "X01_Theory_cache.cfg", {"TypeMode": '"shadow"', "Fams": '{"sig"}', "MaxOps": "3"}, None, ["ReaddRefused"]),
                      ("exit_installs_an_empty_context", "X01_Context_inv.cfg", {"ExitMode": '"empty"', "MaxOps": "3"}, None, ["CtxtRestored"]),
                      ("set_context_overwrites_in_place", "X01_Context_inv.cfg", {"SetCtxMode": '"inplace"', "MaxOps": "3"}, None, ["PrevContextUntouched", "CtxtRestored"]),
-                     ("load_theory_hands_out_the_cached_object", "X01_Context_inv.cfg", {"LoadMode": '"shared"', "MaxOps": "3"}, None, ["CachedTheoryUntouched"]),
                      ("load_theory_cache_leaks_its_scratch_theory", "X01_Context_inv.cfg", {"CacheLoadMode": '"leak"', "MaxOps": "3"}, None, ["ThyRestored"])]
 
         def variant(v):
@@ -225,6 +221,11 @@ def run(rep, tier):
         spec_mutant(rep, "exit_restores_the_outermost_saved_context", "X01_Context", "X01_Context_small.cfg",
                     [("X01_Context.tla", 'CASE ExitMode = "entry" -> f.prev', 'CASE ExitMode = "entry" -> frames[1].prev')], ["CtxtRestored", "FramesAreStack"], wd=wd, workers=1)
         if not quick:
+            spec_mutant(rep, "constant_of_an_existing_name_is_accepted", "X01_Theory", "X01_Theory_cache.cfg",
+                        [("X01_Theory.tla", 'ELSE (IF IName(it) \\in NamesOf(H.d[R.co]) THEN Raise(H, "TheoryException") ELSE Done(SetD(H, R.co',
+                          'ELSE (IF FALSE THEN Raise(H, "TheoryException") ELSE Done(SetD(H, R.co'),
+                         ("X01_Theory_cache.cfg", 'Fams = {"cache"}', 'Fams = {"sig"}'), ("X01_Theory_cache.cfg", "MaxOps = 4", "MaxOps = 2")],
+                        ["ReaddRefused"], wd=wd, workers=1)
             spec_mutant(rep, "extension_stops_one_item_late", "X01_Theory", "X01_Theory_cache.cfg",
                         [("X01_Theory.tla", 'IN IF r.exc # "" THEN r ELSE RunExt(r.H, R, items, i + 1, checked)',
                           'IN IF r.exc # "" /\\ i = Len(items) THEN r ELSE LET q == RunExt(r.H, R, items, i + 1, checked) IN IF r.exc # "" THEN [q EXCEPT !.exc = r.exc] ELSE q'),
@@ -291,7 +292,10 @@ def run(rep, tier):
             "ctx.setctx": 50, "ctx.load": 30, "ctx.cacheload": 10, "ctx.extglobal": 10, "ctx.mutate": 10}
     for k, n in need.items():
         require(cnt.get(k, 0) >= (n if quick else 5 * n), "X01: operation %s hardly exercised (vacuity guard): %d events" % (k, cnt.get(k, 0)))
-    require(prefix_raises >= 20 and cached_q >= 10 and multi >= 200 and nested >= 10 and dirty >= 5,
+    # the keys of the cache are an internal: when they cannot be observed (get_data("theorems_svar") gone) that situation is not counted
+    ck_seen = not any(e["B"].get("nock") for e in thy)
+    rep.notes["coverage_detail"]["cache_keys_observable"] = ck_seen
+    require(prefix_raises >= 20 and (cached_q >= 10 or not ck_seen) and multi >= 200 and nested >= 10 and dirty >= 5,
             "X01: a situation the clauses speak about hardly occurred: %s" % rep.notes["coverage_detail"])
     require(len(v["nontrivial"]) >= (1500 if quick else 20000), "X01: too few events judged: %d" % len(v["nontrivial"]))
     if not rep.violations:
